@@ -7,7 +7,7 @@
    enable-disable events.  Numbers are the reals (instance Rops); [fixed] / [efix] select the code
    before / after the two repairs of branch fix-C08 (true = repaired, the tree the check is tied to). *)
 From Coq Require Import ZArith List Bool Reals.
-From CV Require Import Base.Num Base.RNum C08.ModuleModel C08.ModuleProofs C17.ExtLagModel C17.ExtLagProofs C08.ExtCompose.
+From CV Require Import Base.Num Base.RNum C08.ModuleModel C08.ModuleProofs C17.ExtLagModel C17.ExtLagProofs C08.ExtCompose C04.ABFModel C04.ABFProofs C08.AbfCompose.
 Import ListNotations.
 Local Open Scope R_scope.
 
@@ -260,3 +260,36 @@ Theorem C08_extended_superposition :
     G bs = G (select m bs) + G (select (map negb m) bs).
 Proof. exact @extended_superposition. Qed.
 Print Assumptions C08_extended_superposition.
+
+(* ---- round 3 ------------------------------------------------------------------------------------------ *)
+
+(* A bias that reads total forces (ABF, C04's model by Require) in A++B versus alone, under the documented coupling
+   (lagged engine forces, subtractAppliedForce on its variables, applyBias on): for the same imposed history and
+   ARBITRARY forces of the other biases (c_other / i_o: any history in A++B, none when alone) the ABF bias attributes
+   the same samples, so the count and the gradient sum of every bin - its whole estimator - are the same. *)
+Theorem C08_abf_coupling :
+  forall (c : @abf_cfg R) (o' : list bool),
+    c_same_step c = false ->
+    (forall k, (k < c_nd c)%nat -> bget (c_subtract c) k = true) ->
+    forall (h h' : list (@abf_in R)) (b : idx),
+      wf_cfg c -> Forall2 same_but_other h h' ->
+      s_cnt (fst (abf_run Rops (set_other c o') h')) b = s_cnt (fst (abf_run Rops c h)) b /\
+      forall k, (k < c_nd c)%nat ->
+        vget Rops (s_sum (fst (abf_run Rops (set_other c o') h')) b) k = vget Rops (s_sum (fst (abf_run Rops c h)) b) k.
+Proof. exact abf_data_independent_of_other_biases. Qed.
+Print Assumptions C08_abf_coupling.
+
+(* ... and so is the force the ABF bias computes at every step (the step i after any history h): with the estimator and
+   the force of the force-reading bias unchanged by the other biases, the pair superposes exactly (colvar::f = ABF force
+   + the others' force in C04's st_f; the others never read total forces: C08_superposition). *)
+Theorem C08_abf_force_coupling :
+  forall (c : @abf_cfg R) (o' : list bool),
+    c_same_step c = false ->
+    (forall k, (k < c_nd c)%nat -> bget (c_subtract c) k = true) ->
+    forall (h h' : list (@abf_in R)) (i i' : @abf_in R) (k : nat),
+      wf_cfg c -> Forall2 same_but_other (h ++ [i]) (h' ++ [i']) ->
+      (k < c_nd c)%nat -> (0 <= c_min c < c_full c)%Z -> (c_cap c = true -> 0 <= vget Rops (c_maxf c) k) ->
+      vget Rops (o_fabf (snd (abf_step Rops (set_other c o') (fst (abf_run Rops (set_other c o') h')) i'))) k
+      = vget Rops (o_fabf (snd (abf_step Rops c (fst (abf_run Rops c h)) i))) k.
+Proof. exact abf_force_independent_of_other_biases. Qed.
+Print Assumptions C08_abf_force_coupling.
